@@ -64,7 +64,7 @@ def main(ctx):
     max_n = 9
     extra = "--crustabri %s --wrapper %s" % bins
     shards = run_mode(ctx, h, d, "cli", per_shard * NCPU, extra=extra, drv_modes=[("cli", "--cli-max-n %d" % max_n)],
-                      timeout=1500 if ctx.thorough else 400)
+                      timeout=2400 if ctx.thorough else 1200)
     st = {"invocations": 0, "by_tool": {}, "by_class": {}, "problems": {}, "readers": {}, "encodings": {}, "certificate": {},
           "logging": {}, "exit_codes": {}, "recipes": {}, "file_features": {}, "answers": {}, "judged_by_brute_force": 0,
           "model_predictions": 0, "model_not_applicable": 0, "instances": 0}
